@@ -90,7 +90,7 @@ CHECKS["C06"] = dict(
     jobs=[dict(pkg="pkg/report", entry="HC06Jitter", params=dict(lastbase=lb, dbase=db, tsbits=12, elbits=20, jbits=20), optional_covers=["timestamp wrapped between packets"])
           for (lb, db) in ((4294967000, 0), (0, 0), (2147483000, 0), (100000, 4294960000), (5000, 2147481000))] + [
         dict(pkg="pkg/report", entry="HC06Loss", params=dict(packets=3, fwd=3, back=3), thorough=dict(params=dict(packets=3, fwd=4, back=4), flags=["-qtimeout", "300000"], timeout=3400)),
-        dict(pkg="pkg/report", entry="HC06LossStep", params=dict(maxjump=6), require_covers=["jump across the sequence wrap"]),
+        dict(pkg="pkg/report", entry="HC06LossStep", params=dict(maxjump=6), require_covers=["jump across the sequence wrap", "cumulative lost saturates"]),
         dict(pkg="pkg/report", entry="HC06Interceptor", require_covers=["lossy stream reported"], no_native=True),
         dict(pkg="pkg/report", entry="HC06SR", params=dict(elbase=0)),
         dict(pkg="pkg/report", entry="HC06SR", params=dict(elbase=65535999000000)),
@@ -121,9 +121,10 @@ CHECKS["C09"] = dict(
         dict(pkg="internal/cc", entry="HC09Adapter", params=dict(n=3, kind=1), thorough=dict(params=dict(n=4), timeout=3000)),
         dict(pkg="internal/cc", entry="HC09RFC8888", params=dict(nbases=1), require_covers=["decoded"], thorough=dict(params=dict(nbases=2), timeout=3000)),
         dict(pkg="internal/verifchain", entry="HC09Compose", require_covers=["composed"]),
+        dict(pkg="pkg/rtpfb", entry="HC09ConvertTWCC", require_covers=["converted", "received without delta"]),
         dict(pkg="pkg/rtpfb", entry="HC09Rtpfb", require_covers=["two feedbacks"]),
     ],
-    bounds=dict(quick="gcc FeedbackAdapter: 3 covered sequence numbers + 1 beyond the declared range, every subset of them known to the history, base 10 or 65534 (wrap), one status-vector chunk (2-bit symbols, padded to 7) with every symbol combination / one run-length chunk of each symbol; symbolic deltas (small 0..255, large int16), sizes, departure times, reference time. RFC 8888 path: two streams x 3 sent packets (every membership subset of the first stream), one report block per stream starting at 65535 (wrap), symbolic received flags, ECN, 13-bit arrival offsets and report timestamp: each ack == (recorded size/departure, encoded arrival = reference - offset/1024 s, ECN), nothing else acknowledged. Composition: feedback built by the TWCC recorder of this library for 4 sent packets (every arrival subset, arrival steps from a table, 2 bases incl. wrap) decoded by the gcc adapter, and two successive recorder feedbacks over 5 sent packets through rtpfb convertTWCC + history: each sent packet reported at most once, in send order, with the recorded arrival within 125 us",
+    bounds=dict(quick="gcc FeedbackAdapter: 3 covered sequence numbers + 1 beyond the declared range, every subset of them known to the history, base 10 or 65534 (wrap), one status-vector chunk (2-bit symbols, padded to 7) with every symbol combination / one run-length chunk of each symbol; symbolic deltas (small 0..255, large int16), sizes, departure times, reference time. RFC 8888 path: two streams x 3 sent packets (every membership subset of the first stream), one report block per stream starting at 65535 (wrap), symbolic received flags, ECN, 13-bit arrival offsets and report timestamp: each ack == (recorded size/departure, encoded arrival = reference - offset/1024 s, ECN), nothing else acknowledged. Composition: feedback built by the TWCC recorder of this library for 4 sent packets (every arrival subset, arrival steps from a table, 2 bases incl. wrap) decoded by the gcc adapter, and two successive recorder feedbacks over 5 sent packets through rtpfb convertTWCC + history: each sent packet reported at most once, in send order, with the recorded arrival within 125 us; rtpfb convertTWCC on one 2-bit status-vector chunk with every symbol combination (incl. received-without-delta) for 1..5 statuses: status, arrival and delta consumption per number",
                 thorough="4 covered numbers"),
     outside=["more than one chunk per feedback", "LRU eviction at size 250 (membership is chosen directly)", "rtpfb CCFB (RFC 8888) conversion", "composition with the RFC 8888 generator"],
     assumptions=["container/list executed from SSA", "time.Time 96-bit model"],
@@ -150,10 +151,11 @@ CHECKS["C02"] = dict(
 CHECKS["C14"] = dict(
     jobs=[
         dict(pkg="pkg/flexfec", entry="HC14Masks"),
+        dict(pkg="pkg/flexfec", entry="HC14Header", require_covers=["three mask words"]),
         dict(pkg="pkg/flexfec", entry="HC14Bytes", params=dict(media=3, fec=2, csrc=0), thorough=dict(params=dict(media=4, fec=2))),
         dict(pkg="pkg/flexfec", entry="HC14Bytes", params=dict(media=3, fec=1, csrc=1), thorough=dict(params=dict(media=4, fec=3))),
     ],
-    bounds=dict(quick="masks: media count in {1,2,15,16,46,47,109,110} x FEC count in {1,2,3,7}, with and without a preceding different configuration on the same coverage object, ANY (repair index, media index): combined <=> index mod k, named (independent wire reader of the 15/31/63-bit fields) <=> combined. bytes: 3 media packets x 1-2 FEC, two successive batches through one encoder, symbolic base sequence (wrap included), timestamps, marker, PT, payload length 0..2 with symbolic bytes, optional CSRC on one packet; XOR recovery of an arbitrary protected packet in the harness",
+    bounds=dict(quick="masks: media count in {1,2,15,16,46,47,109,110} x FEC count in {1,2,3,7}, with and without a preceding different configuration on the same coverage object, ANY (repair index, media index): combined <=> index mod k, named (independent wire reader of the 15/31/63-bit fields) <=> combined. wire header: (media, FEC) in {(15,1),(16,1),(46,2),(47,1),(60,46),(60,20),(109,108),(109,3)} with 1-byte payloads and a symbolic base: header size, k-bits and masks parsed from the repair packet bytes for repair index 0, 1 and k-1, repair byte == XOR of the protected bytes; bytes: 3 media packets x 1-2 FEC, two successive batches through one encoder, symbolic base sequence (wrap included), timestamps, marker, PT, payload length 0..2 with symbolic bytes, optional CSRC on one packet; XOR recovery of an arbitrary protected packet in the harness",
                 thorough="4 media packets, up to 3 FEC"),
     outside=["other (media, FEC) counts than the listed grid", "payloads longer than 2 bytes / header extensions / padding at byte level", "the encoder interceptor wiring"],
     assumptions=["sync.Pool LIFO model for the scratch buffer"],
@@ -161,7 +163,8 @@ CHECKS["C14"] = dict(
 
 CHECKS["C19"] = dict(
     jobs=[dict(pkg="pkg/stats", entry="HC19Recount", params=dict(events=2), require_covers=["incoming rtp counted", "XR first in a compound packet", "report block for the stream after another block"])]
-       + [dict(pkg="pkg/stats", entry="HC19RTT", params=dict(dbase=db, dbits=bits, srs=3), require_covers=["matching sender report", "no matching sender report"]) for (db, bits) in ((1, 10), (65536, 16), (65536000, 16), (4294900000, 16))],
+       + [dict(pkg="pkg/stats", entry="HC19RTT", params=dict(dbase=db, dbits=bits, srs=3), require_covers=["matching sender report", "no matching sender report"]) for (db, bits) in ((1, 10), (65536, 16), (65536000, 16), (4294900000, 16))]
+       + [dict(pkg="pkg/stats", entry="HC19RTT", params=dict(dbase=65536, dbits=12, srs=7), require_covers=["matching sender report"])],
     bounds=dict(quick="one recorder (SSRC 100), 2 events chosen from {incoming RTP, outgoing RTP, incoming RTCP compound of 2 packets out of NACK/PLI/FIR/XR, outgoing RTCP NACK/PLI/FIR}, each addressed to the stream or to another SSRC (symbolic), sequence numbers base+-3 for any base incl. wrap, payload length 0..1460; counters compared with a recount. RTT from LSR/DLSR: 3 remembered outgoing sender reports (symbolic NTP fractions), an incoming receiver report matching the k-th of them or none, DLSR in 4 windows (2^10 values from 1, 2^16 values from 1 s, 1000 s and the top of the 32-bit range), arrival within 2^30 ns: RTT == arrival - DLSR - send time of the matching report, one measurement; nothing on a mismatch",
                 thorough="same (3 events did not finish within 50 minutes)"),
     outside=["DLRR (XR) round-trip time, remote jitter and packets-received figures", "the interceptor fan-out and the Queue*/channel plumbing", "a stream whose first sequence number is below the reordering distance (unwrapper corner)", "FIR whose media SSRC field is 0 (RFC 5104 form)"],
@@ -171,10 +174,10 @@ CHECKS["C19"] = dict(
 CHECKS["C05"] = dict(
     jobs=[
         dict(pkg="pkg/twcc", entry="HC05Chunks", params=dict(symbols=16), require_covers=["chunk flushed"], thorough=dict(params=dict(symbols=24))),
-        dict(pkg="pkg/twcc", entry="HC05Packer", params=dict(steps=3, wire=1, dchoices=6), require_covers=["packet built"], thorough=dict(params=dict(steps=4, dchoices=6), timeout=3400)),
+        dict(pkg="pkg/twcc", entry="HC05Packer", params=dict(steps=3, wire=1, dchoices=6), require_covers=["packet built", "delta too large: refused"], thorough=dict(params=dict(steps=4, dchoices=6), timeout=3400)),
         dict(pkg="pkg/twcc", entry="HC05Recorder", params=dict(records=3, span=3), require_covers=["feedback built", "duplicate ignored"], thorough=dict(params=dict(records=4, span=2), flags=["-maxpaths", "3000000"], timeout=3400)),
     ],
-    bounds=dict(quick="chunk packer: ANY sequence of 16 status symbols (0/1/2), emitted chunks decode to the driven sequence and are well formed; feedback packer: 3 received packets with gaps of 0 or 2 lost in between, arrival steps case-split over a table of boundary values (0, 124/125 us rounding, 255.5-unit small/large border, 64 ms, int16 limit, negative), 3 reference times, symbolic base sequence number (wrap) -> independent decode within 125 us, one delta per received status, real rtcp Marshal/Unmarshal round trip and declared length; recorder: 3 records (offsets 0..3 from 2 bases incl. wrap, duplicates, reordering, 4 arrival steps up to 70 ms) with a build after a case-split prefix and at the end",
+    bounds=dict(quick="chunk packer: ANY sequence of 16 status symbols (0/1/2), emitted chunks decode to the driven sequence and are well formed; feedback packer: 3 received packets with gaps of 0 or 2 lost in between, arrival steps case-split over a table of boundary values (0, 125 us rounding, 255.5-unit small/large border, 64 ms, negative, beyond the int16 limit: must be refused; thorough adds 124 us, the int16 limits both ways, 12 s), 3 reference times, symbolic base sequence number (wrap) -> independent decode within 125 us, one delta per received status, real rtcp Marshal/Unmarshal round trip and declared length; recorder: 3 records (offsets 0..3 from 2 bases incl. wrap, duplicates, reordering, 4 arrival steps up to 70 ms) with a build after a case-split prefix and at the end",
                 thorough="24 symbols; 4 packer steps; 4 records"),
     outside=["arrival-time values other than the tabled boundary values (the 64-bit divide/multiply chain by 250 and 64000 does not finish symbolically: unknown at 60 s in z3 and cvc5; cvc5 --solve-bv-as-int=sum decides single steps only)", "gaps longer than 2 / sequence jumps beyond 4", "the 500 ms culling rule (steps stay below it)", "first sequence number below the reordering distance (unwrapper corner)", "sender interceptor loop"],
     assumptions=["case splits over the tables are exhaustive per table; each path's arithmetic is concrete, the solver decides the sequence-number arithmetic (symbolic base) and all slice/index checks"],
